@@ -3,6 +3,6 @@ CONSTANTS
   NC = 3
   NB = 3
   Lens = {"eq", "short", "long"}
-INVARIANTS ToHostExact ToHostNoInvention ToHostComplete ToClientPrefix
+INVARIANTS DeliveredBeforeClose ToHostExact ToHostNoInvention ToHostComplete ToClientPrefix
 PROPERTY ToClientEventuallyAll
 CHECK_DEADLOCK FALSE
